@@ -32,6 +32,7 @@ void splinetable<Alloc>::permuteDimensions(const std::vector<size_t>& permutatio
 	std::unique_ptr<uint64_t[]> t_strides(new uint64_t[ndim]);
 	std::unique_ptr<uint64_t[]> t_nknots(new uint64_t[ndim]);
 	std::unique_ptr<double_ptr[]> t_knots(new double_ptr[ndim]);
+	std::unique_ptr<double[]> t_periods(periods ? new double[ndim] : nullptr);
 	std::unique_ptr<double*[],void(*)(double**)> t_extents(new double*[ndim],
 		[](double** p){
 			if(p && p[0])
@@ -51,6 +52,8 @@ void splinetable<Alloc>::permuteDimensions(const std::vector<size_t>& permutatio
 		t_naxes[i] = naxes[j];
 		t_nknots[i] = nknots[j];
 		t_knots[i] = knots[j];
+		if(periods)
+			t_periods[i] = periods[j];
 		t_extents[i][0] = extents[j][0];
 		t_extents[i][1] = extents[j][1];
 	}
@@ -77,6 +80,8 @@ void splinetable<Alloc>::permuteDimensions(const std::vector<size_t>& permutatio
 	std::copy(t_strides.get(),t_strides.get()+ndim,strides);
 	std::copy(t_nknots.get(),t_nknots.get()+ndim,nknots);
 	std::copy(t_knots.get(),t_knots.get()+ndim,knots);
+	if(periods)
+		std::copy(t_periods.get(),t_periods.get()+ndim,periods);
 	for(uint32_t i=0; i<ndim; i++){
 		extents[i][0]=t_extents[i][0];
 		extents[i][1]=t_extents[i][1];
